@@ -622,10 +622,17 @@ func ruleIntDivSigns(w *World, r *RuleResult) {
 				continue
 			}
 			// the DivisionImpossible return delivers the shared NaN, not a quotient
-			if w.allSetsAreNaN(f) {
+			{
+				setsNaN := w.allSetsAreNaN(f)
 				var rest []string
 				for _, v := range vals {
-					if v != "<written by (*Decimal).Set>" {
+					isExit := false
+					if strings.HasPrefix(v, "<written by ") {
+						if _, ok := w.nanExitHelper(w.fn(strings.TrimSuffix(strings.TrimPrefix(v, "<written by "), ">"))); ok {
+							isExit = true
+						}
+					}
+					if !(v == "<written by (*Decimal).Set>" && setsNaN) && !isExit {
 						rest = append(rest, v)
 					}
 				}
